@@ -89,9 +89,9 @@ def gen_case(rng: random.Random, tier: str) -> dict:
     formulas = [gen_formula(rng) for _ in range(rng.randint(3, 5))]
     ops, nspec = [], 0
     for _ in range(rng.randint(8, 30)):
-        kind = rng.choice(["mm", "mm", "formula_mm", "fit", "fit", "replay", "replay", "replay", "clone", "unfit", "repeat"])
+        kind = rng.choice(["mm", "mm", "formula_mm", "mat_mm", "fit", "fit", "replay", "replay", "replay", "clone", "unfit", "repeat"])
         out = rng.choice(["pandas", "numpy", "sparse"])
-        if kind in ("mm", "formula_mm"):
+        if kind in ("mm", "formula_mm", "mat_mm"):
             ops.append({"op": kind, "f": rng.randrange(len(formulas)), "d": rng.randrange(len(frames)), "output": out})
         elif kind == "fit":
             ops.append({"op": "fit", "f": rng.randrange(len(formulas)), "d": rng.randrange(len(frames)), "output": out, "as": nspec})
@@ -105,7 +105,7 @@ def gen_case(rng: random.Random, tier: str) -> dict:
             ops.append({"op": "clone", "spec": rng.randrange(nspec), "how": rng.choice(["pickle", "update", "deepcopy"]), "as": nspec})
             nspec += 1
         elif kind == "repeat" and ops:
-            ops.append(dict(rng.choice([o for o in ops if o["op"] in ("mm", "formula_mm", "replay")] or [ops[0]])))
+            ops.append(dict(rng.choice([o for o in ops if o["op"] in ("mm", "formula_mm", "mat_mm", "replay")] or [ops[0]])))
     return {"frames": frames, "formulas": formulas, "ops": ops, "hashseed": rng.choice([1, 2, 3, 7, 11, 42, 1234, 99999]),
             "order_seed": rng.randrange(1 << 30)}
 
@@ -133,7 +133,18 @@ class Pool:
         self.frames = [make_frame(f) for f in hist["frames"]]
         self.forms = {}
         self.specs = {}
+        self.mats = {}
         self.ctx = make_ctx()
+
+    def materializer(self, j):
+        """One long-lived materializer object per frame in shared mode; a new one per call otherwise."""
+        from formulaic.materializers import PandasMaterializer
+
+        if self.mode == "fresh":
+            return PandasMaterializer(self.frame(j), context=self.context())
+        if j not in self.mats:
+            self.mats[j] = PandasMaterializer(self.frame(j), context=self.context())
+        return self.mats[j]
 
     def frame(self, j):
         return self.frames[j] if self.mode == "shared" else make_frame(self.h["frames"][j])
@@ -205,6 +216,8 @@ def run_history(hist, mode):
                     res = model_matrix(hist["formulas"][op["f"]], pool.frame(op["d"]), output=op["output"], drop_rows=drop, context=pool.context())
                 elif op["op"] == "formula_mm":
                     res = pool.formula(op["f"]).get_model_matrix(pool.frame(op["d"]), output=op["output"], drop_rows=drop, context=pool.context())
+                elif op["op"] == "mat_mm":
+                    res = pool.materializer(op["d"]).get_model_matrix(hist["formulas"][op["f"]], output=op["output"], drop_rows=drop)
                 elif op["op"] == "replay":
                     res = pool.spec(op["spec"]).get_model_matrix(pool.frame(op["d"]), drop_rows=drop, context=pool.context())
                 else:
